@@ -74,6 +74,10 @@ ID = 'C10'
 # Props.C10g: the property theorems restated for the regenerated definitions.
 LEAN_MODULES = ['Py65.Props.C10', 'Py65.Proofs.ObsMemGenEq', 'Py65.Props.C10g']
 NAMESPACES = ['Py65.Props.C10', 'Py65.Proofs.ObsMemGenEq', 'Py65.Props.C10g']
+# library helpers (CPython behaviour modelled in lean/Py65/Model/*Rt*.lean ...) that the generated code of these
+# modules calls, derived by scanning the Lean sources (harness/rtscan.py); validated against CPython on every run
+import rtcheck  # noqa: E402
+RT_HELPERS = rtcheck.helpers_for(LEAN_MODULES)
 LEVEL = 'proof'
 USES_GEN = False
 RULE = ('a history counts as non-trivial when at least one subscriber callback was called in it; '
